@@ -1,5 +1,12 @@
 import TR.Model.Common
 import TR.Model.Bulkhead
+import TR.Model.Backoff
+import TR.Model.Reconnect
+import TR.Model.Hedge
+import TR.Model.RateLimiter
+import TR.Model.Retry
+import TR.Model.Health
+import TR.Model.Cache
 import TR.Model.Circuit
 /-!
 Line-protocol driver: reads the op file on stdin, prints the model's event log in the same
@@ -12,6 +19,13 @@ def machineOf (name : String) : Option Machine :=
   match name with
   | "bulkhead" => some Bulkhead.machine
   | "circuit" => some Circuit.machine
+  | "cache" => some Cache.machine
+  | "health" => some Health.machine
+  | "retry" => some Retry.machine
+  | "ratelimiter" => some RateLimiter.machine
+  | "hedge" => some Hedge.machine
+  | "reconnect" => some Reconnect.machine
+  | "backoff" => some Backoff.machine
   | _ => none
 
 structure Run (m : Machine) where
